@@ -32,7 +32,7 @@ Proof. exact prefix_for_namespace_spec. Qed.
 Print Assumptions C09_prefix_for_namespace_spec.
 
 Theorem C09_is_prefix_defined_spec :
-  forall xp xn z p, is_prefix_defined xp xn z p = true <-> nearest xp xn z p <> None.
+  forall ep xp nn xn z p, legal ep xp nn xn z -> (is_prefix_defined xp nn xn z p = true <-> bound ep xp nn xn z p <> None).
 Proof. exact is_prefix_defined_spec. Qed.
 Print Assumptions C09_is_prefix_defined_spec.
 
